@@ -115,7 +115,7 @@ class AsyncListener:
             self.data == data
             and (now - _DUPLICATE_PACKET_SUPPRESSION_INTERVAL) < self.last_time
             and self.last_message is not None
-            and not self.last_message.has_qu_question()
+            and not (self.last_message.is_query() and self.last_message.has_qu_question())
         ):
             # Guard against duplicate packets
             if debug:
